@@ -379,6 +379,7 @@ func (cluster *Cluster) chooseNodeWithCmdAndKeys(cmd string, strict bool, args .
 			}
 			keyStr, _ := key(args[0])
 			resolvedKey = keyStr
+			keys = []string{keyStr}
 		}
 
 		if cluster.transactionEnable {
